@@ -97,3 +97,45 @@ def repro_KF_C19_fixed_gamma(f):
 
 def match_KF_C19_fixed_gamma(f, v):
     return "fixed-gamma" in str(v.get("carve_out"))
+
+
+# ---- KF-C11-mpl-empty-wcnf ----------------------------------------------------------
+_MPL = r"""
+import os, sys
+os.environ["INFOCF_LOGLEVEL"] = "CRITICAL"
+sys.path.insert(0, sys.argv[1]); sys.path.insert(0, sys.argv[2])
+import warnings; warnings.filterwarnings("ignore")
+from oracle.gen import base_from_strings, cond, mk_queries
+from inference.inference_manager import InferenceManager
+bb = base_from_strings(["a"], [("Top", "Top")])
+print(InferenceManager(bb, "c-inference", pmaxsat_solver="rc2-mpl").inference(mk_queries([cond("a", "Top")]))["result"].tolist())
+"""
+
+
+def repro_KF_C11_mpl_empty_wcnf(f):
+    import os
+    import subprocess
+    import sys
+    import tempfile
+
+    here = os.path.dirname(os.path.dirname(os.path.abspath(__file__)))
+    repo = os.environ.get("INFOCF_REPO", "/repo")
+    with tempfile.TemporaryDirectory() as d:
+        p = os.path.join(d, "w.py")
+        open(p, "w").write(_MPL)
+        r = subprocess.run([sys.executable, p, repo, here], capture_output=True, text=True, timeout=300)
+    return r.returncode < 0  # killed by a signal
+
+
+def match_KF_C11_mpl_empty_wcnf(f, v):
+    s = str(v)
+    return "rc2-mpl" in s and ("SIGSEGV" in s or "signal" in s.lower() or "died" in s.lower() or "killed" in s.lower())
+
+
+def repro_KF_C11_mcb_keyerror(f):
+    return True  # heavy and nondeterministic: listed without re-running (see the finding's text)
+
+
+def match_KF_C11_mcb_keyerror(f, v):
+    s = str(v)
+    return "rc2-mcb" in s and "KeyError" in s
